@@ -342,6 +342,56 @@ func checkPlanarCase(c planarCase, rec *Rec) error {
 			}
 		}
 	}
+	// a view that outlives edits of its host ("reflects the current state of g"): ask, edit the host, ask the same view again
+	if g.N >= 2 && g.N <= 40 {
+		for _, hostKind := range []string{"dense", "sparse"} {
+			model := g.Copy()
+			var host graph.EditableGraph = denseOf(model)
+			if hostKind == "sparse" {
+				host = sparseOf(model)
+			}
+			rev := make([]int, g.N)
+			for i := range rev {
+				rev[i] = g.N - 1 - i
+			}
+			view := graph.InducedSubgraph(host, rev)
+			ask := func(when string) error {
+				var ans bool
+				if p := try(func() { ans = graph.IsPlanar(view) }); p != nil {
+					return fmt.Errorf("IsPlanar(view of a %s host, %s) panicked: %v", hostKind, when, p)
+				}
+				if w := oracle.Planar(model); ans != w {
+					return fmt.Errorf("IsPlanar(one InducedSubgraph view of a %s host, %s) = %v, the host now is planar=%v (n=%d edges %v)", hostKind, when, ans, w, model.N, clipEdges(model))
+				}
+				return nil
+			}
+			if err := ask("before any edit"); err != nil {
+				return err
+			}
+			steps := 0
+			for k := 0; k < 4 && steps < 3; k++ {
+				a := int(hashPrefix(uint64(g.N*131+g.M()), []int{k, 1}) % uint64(g.N))
+				b := int(hashPrefix(uint64(g.N*131+g.M()), []int{k, 2}) % uint64(g.N))
+				if c.DelEdge >= 0 && k == 0 {
+					a, b = c.G.E[c.DelEdge][0], c.G.E[c.DelEdge][1]
+				}
+				if a == b {
+					continue
+				}
+				if model.Has(a, b) {
+					model.Del(a, b)
+					host.RemoveEdge(a, b)
+				} else {
+					model.Add(a, b)
+					host.AddEdge(a, b)
+				}
+				steps++
+				if err := ask(fmt.Sprintf("after toggling %d edges of the host, last %d-%d", steps, a, b)); err != nil {
+					return err
+				}
+			}
+		}
+	}
 	// disjoint union with K4 (planar) keeps the answer, with K5 makes it non-planar
 	if err := expectSame("disjoint union with K4", oracle.DisjointUnion(g, mComplete(4))); err != nil {
 		return err
